@@ -1,6 +1,7 @@
 package vnet
 
 import (
+	"sync"
 	"context"
 	"io"
 	"net"
@@ -911,4 +912,42 @@ func (k *Socket) Scribble(b byte) int {
 		n += len(f)
 	}
 	return n
+}
+
+// ---- os/signal ------------------------------------------------------------------------------
+
+var (
+	sigMu      sync.Mutex
+	sigStopped = map[chan<- os.Signal]bool{}
+)
+
+func resetSignals() {
+	sigMu.Lock()
+	sigStopped = map[chan<- os.Signal]bool{}
+	sigMu.Unlock()
+}
+
+// SignalNotify stands in for signal.Notify: the channel is (again) one the OS delivers to.
+func SignalNotify(c chan<- os.Signal, sig ...os.Signal) {
+	sigMu.Lock()
+	delete(sigStopped, c)
+	sigMu.Unlock()
+}
+
+// SignalStop stands in for signal.Stop: from now on the OS delivers nothing to the channel.
+func SignalStop(c chan<- os.Signal) {
+	sigMu.Lock()
+	sigStopped[c] = true
+	sigMu.Unlock()
+}
+
+func SignalReset(sig ...os.Signal)  {}
+func SignalIgnore(sig ...os.Signal) {}
+
+// SignalDeliverable: would the OS still deliver a signal to this channel? (The harness, playing the OS, asks before
+// it sends the application's stop signal.)
+func SignalDeliverable(c chan<- os.Signal) bool {
+	sigMu.Lock()
+	defer sigMu.Unlock()
+	return !sigStopped[c]
 }
